@@ -7,8 +7,18 @@ Oracle: the bounds of the theorems of ExaModel/Props/C12.lean evaluated, in plai
 arithmetic, on what the implementation did (NOTIFY raised, KEEPALIVE bytes captured with their
 clock reading) — it does not consult the model.
 
-Part (b) (the real Peer loop under a virtual-time event loop, OPENCONFIRM hold timer F18) belongs to
-the session rig and is not here.
+Two things reach beyond the timer classes themselves, because the property can be broken one step
+outside them:
+  * outbound traffic: schedule events "ExaBGP writes an UPDATE / End-of-RIB / ROUTE-REFRESH / OPERATIONAL now",
+    performed through the real Protocol.new_update_generator → Protocol.send / new_eor / new_refresh /
+    new_operational on the very Protocol and Peer (stats counters) the KA object uses; the model says they
+    change nothing (theorem outbound_traffic_is_invisible);
+  * establishment: the real Peer.run() (OPEN exchange with our hold time / the peer's hold time, `_establish`,
+    `_main`) over a socketpair under virtual time (harness/sessionrig.py), every call the peer makes on
+    its own ReceiveTimer / SendTimer recorded and replayed through the model (timers created from
+    min(local, peer): theorem negotiated_hold_is_min), and the property's bounds evaluated on the
+    timestamps the remote observes.
+The OPENCONFIRM hold timer (F18) stays with the session rig.
 """
 
 from __future__ import annotations
@@ -37,6 +47,8 @@ TRUSTED_EXTRA = [
 
 REAL = {'open', 'update', 'notification', 'keepalive', 'refresh', 'operational'}
 SCHED = ['nop', 'awake', 'done']
+OUT = ['out-update', 'out-eor', 'out-refresh', 'out-operational']
+HOLDS = [0, 3, 9, 90, 180]
 H_BOUNDARY = [0, 3, 4, 5, 6, 7, 8, 9, 10, 11, 12, 29, 30, 31, 89, 90, 91, 179, 180, 181, 240, 255, 256, 3600, 32767, 32768, 65533, 65534, 65535]
 
 
@@ -75,6 +87,7 @@ def gen_session(rng, maxlen: int) -> dict:
     n = rng.randrange(1, maxlen)
     t, L, A = tS, tR, tS
     over, nka = False, 0
+    out_rate = rng.choice([0.0, 0.0, 0.15, 0.5, 1.0])
     polls: list[list] = []
     quiet_after = rng.randrange(0, n + 1)
     off = [-1001, -1000, -999, -2, -1, 0, 1, 2, 999, 1000, 1001]
@@ -123,6 +136,10 @@ def gen_session(rng, maxlen: int) -> dict:
                 kind = 'keepalive' if (H or rng.random() < 0.25) else 'update'
             else:
                 kind = rng.choice(['refresh', 'operational', 'open', 'notification'])
+        if H and rng.random() < out_rate:
+            # ExaBGP writes something itself between two iterations (most often just before a KEEPALIVE is due)
+            for _ in range(rng.choice([1, 1, 1, 2, 5])):
+                polls.append([max(t - rng.choice([0, 1, 50]), polls[-1][0] if polls else tS), rng.choice(OUT[:2] if rng.random() < 0.8 else OUT)])
         polls.append([t, kind])
         # steering only: once the session must be over, one more iteration and stop
         if over:
@@ -140,7 +157,7 @@ def gen_session(rng, maxlen: int) -> dict:
 
 
 def session_lines(case: dict) -> list[str]:
-    return [f'timer init {case["H"]} {case["tR"]} {case["tS"]}'] + [f'timer poll {t} {k}' for t, k in case['polls']]
+    return [f'timer init {case["H"]} {case["tR"]} {case["tS"]}'] + [(f'timer out {t} {k[4:]}' if k.startswith('out-') else f'timer poll {t} {k}') for t, k in case['polls']]
 
 
 def gen_class(rng, maxlen: int) -> list[str]:
@@ -159,7 +176,11 @@ def gen_class(rng, maxlen: int) -> list[str]:
             t = max(t, 0)
         op = rng.random()
         k = rng.choice(kinds) if rng.random() < 0.6 else rng.choice(['nop', 'keepalive'])
-        if op < 0.04:
+        if op < 0.02:
+            lines.append(f'timer estab-recv {rng.choice(HOLDS + [65535])} {rng.choice(HOLDS + [65535])} {t}')
+        elif op < 0.03:
+            lines.append(f'timer estab-send {rng.choice(HOLDS + [65535])} {rng.choice(HOLDS + [65535])} {t}')
+        elif op < 0.05:
             H = rng.choice([0, 1, 2, 3, 5, 9, 30, rng.randrange(0, 70000) % 65536])
             lines.append(f'timer rinit {H} {rng.choice([4, 4, 5, 6])} {rng.choice([0, 0, 1, 2])} {t}')
         elif op < 0.08:
@@ -172,8 +193,10 @@ def gen_class(rng, maxlen: int) -> list[str]:
             lines.append(f'timer need {t}')
         elif op < 0.82:
             lines.append(f'timer send {t} {int(rng.random() < 0.8)}')
-        elif op < 0.97:
+        elif op < 0.92:
             lines.append(f'timer poll {t} {k}')
+        elif op < 0.97:
+            lines.append(f'timer out {t} {rng.choice(OUT)[4:]}')
         else:
             lines.append('timer state')
     return lines
@@ -204,13 +227,20 @@ def oracle(case: dict, outs: list[str], writes: list[tuple[int, bytes]], kinds: 
     H, tR, tS = case['H'], case['tR'], case['tS']
     polls = case['polls']
     delta, prev = 0, tS
-    for t, _ in polls:
-        delta = max(delta, t - prev)
-        prev = t
+    for t, k in polls:
+        if not k.startswith('out-'):
+            delta = max(delta, t - prev)
+            prev = t
     KEEPALIVE = b'\xff' * 16 + b'\x00\x13\x04'
-    wr = list(writes)
+    wr = [w for w in writes if w[1][18] == 4]  # the KEEPALIVEs among what was written
     L, A, closed = tR, tS, False
     for i, ((t, kname), o) in enumerate(zip(polls, outs)):
+        if kname.startswith('out-'):
+            # ExaBGP wrote something itself: not an iteration of the timers, the remote's view of the
+            # KEEPALIVE schedule is judged at the iterations around it
+            if o != 'idle':
+                return f'event {i}: writing {kname[4:]} made the timers answer {o!r}', i
+            continue
         m = kinds[kname]
         real = not m.SCHEDULING
         if closed:
@@ -380,12 +410,31 @@ def run(ctx: Ctx) -> None:
         'other constructor codes, failing writes, clock steps back. A session case is non-trivial when the real classes fired at least one timer action '
         '(KEEPALIVE written or Notify raised) and the schedule has both a real message and a NOP poll; distinct = distinct (H, times relative to creation, ms phase, kinds).'
     ) % (maxlen - 1)
+    from harness import sessionrig
+
+    sessionrig.install()  # before the rig saves the `time` name it is going to replace
     rig = timerrig.TimerRig()
     kinds = timerrig.kind_objects()
+    seen_fail: set = set()
     try:
-        _run(ctx, rig, kinds, rng, n_sessions, n_class, maxlen)
+        _run(ctx, rig, kinds, rng, n_sessions, n_class, maxlen, seen_fail)
     finally:
         rig.close()
+    # 3. establishment: the real Peer.run() for pairs (our hold time, the peer's hold time)
+    est_fail: set = set()
+    n_before = len(ctx.failures)
+    for c in load_corpus():
+        if 'local' in c:
+            check_estab(ctx, {k: c[k] for k in ('local', 'peer', 'arrivals', 'kind', 'routes')}, 'corpus', est_fail)
+    for case in estab_cases(rng, ctx.tier):
+        if ctx.time_left() < 3:
+            ctx.notes.append('budget reached inside the establishment stream')
+            break
+        check_estab(ctx, case, 'pairs', est_fail)
+    if len(ctx.failures) - n_before > 5:
+        ctx.notes.append(f'{len(ctx.failures) - n_before} failing establishment cases; the 5 smallest are reported')
+        tail = sorted(ctx.failures[n_before:], key=lambda f: (f.canon['local'] + f.canon['peer'], json.dumps(f.canon)))
+        ctx.failures[n_before:] = tail[:5]
 
 
 def check_session(ctx: Ctx, rig, kinds, case: dict, origin: str, seen_fail: set) -> tuple[list[str], list[str]]:
@@ -404,6 +453,8 @@ def check_session(ctx: Ctx, rig, kinds, case: dict, origin: str, seen_fail: set)
         if t % 1000 in (0, 999):
             ctx.count('poll-on-second-boundary')
     ks = {k for _, k in case['polls']}
+    if ks & set(OUT):
+        ctx.count('session-with-outbound-writes')
     if fired and (ks & REAL) and (ks & set(SCHED)):
         ctx.nontrivial(canon_session(case))
     if fired:
@@ -411,6 +462,8 @@ def check_session(ctx: Ctx, rig, kinds, case: dict, origin: str, seen_fail: set)
     what, idx = oracle(case, outs, writes, kinds)
     if what:
         ctx.count('oracle-fail')
+        if len(seen_fail) >= 30:
+            return session_lines(case), full  # one defect, many schedules: 30 shrunk cases are enough to pick the shortest from
         small = shrink_session(rig, kinds, case)
         canon = canon_session(small)
         key = json.dumps(canon)
@@ -421,10 +474,9 @@ def check_session(ctx: Ctx, rig, kinds, case: dict, origin: str, seen_fail: set)
     return session_lines(case), full
 
 
-def _run(ctx: Ctx, rig, kinds, rng, n_sessions: int, n_class: int, maxlen: int) -> None:
+def _run(ctx: Ctx, rig, kinds, rng, n_sessions: int, n_class: int, maxlen: int, seen_fail: set) -> None:
     from exabgp.bgp.message.open.holdtime import HoldTime
 
-    seen_fail: set = set()
     batch: list = []
 
     def flush() -> None:
@@ -433,6 +485,8 @@ def _run(ctx: Ctx, rig, kinds, rng, n_sessions: int, n_class: int, maxlen: int) 
 
     # 0. corpus
     for c in load_corpus():
+        if 'local' in c:
+            continue  # establishment cases: run with the establishment stream
         if 'polls' in c:
             lines, impl = check_session(ctx, rig, kinds, c, 'corpus', seen_fail)
             batch.append(('session', c, lines, impl))
@@ -486,7 +540,7 @@ def _run(ctx: Ctx, rig, kinds, rng, n_sessions: int, n_class: int, maxlen: int) 
 
     # 2. random sessions (with the oracle) and class scripts
     done_s = done_c = 0
-    while (done_s < n_sessions or done_c < n_class) and ctx.time_left() > 5:
+    while (done_s < n_sessions or done_c < n_class) and ctx.time_left() > 30:
         for _ in range(200):
             if done_s < n_sessions:
                 case = gen_session(rng, maxlen)
@@ -517,11 +571,156 @@ def _run(ctx: Ctx, rig, kinds, rng, n_sessions: int, n_class: int, maxlen: int) 
         ctx.notes.append(f'budget reached after {done_s} session cases and {done_c} class scripts')
 
 
+# ---------------------------------------------------------------------------------------------
+# establishment stream: real Peer.run() under virtual time
+
+
+def estab_until(case: dict) -> int:
+    h = min(case['local'], case['peer'])
+    last = max(case['arrivals']) if case['arrivals'] else 0
+    return last + ((h + 5) * 1000 if h else (max(case['local'], case['peer']) + 8) * 1000)
+
+
+def oracle_estab(case: dict, res: dict) -> str | None:
+    """The property on what the REMOTE observes (ms after the session reached ESTABLISHED): the two OPENs
+    carried `local` and `peer`, so H = min (RFC 4271 4.2: 0 if either is 0).  delta = the largest distance
+    between two iterations of the peer's main loop in this run (measured at its own check_ka calls); one
+    delta for the iteration that picks a message up, one for the one that acts.
+      H = 0: no NOTIFICATION 4/0, no KEEPALIVE later than 1 s after establishment (the End-of-RIB substitute is immediate)
+      H > 0: nothing but a 4/0 ends the session; it comes >= H s and < (H+1) s + 2 delta after the last message
+             the remote sent (or establishment); a session still open has been silent for less than that;
+      H >= 3: establishment → first KEEPALIVE → … → end of observation, every step <= H/3 s + 2 delta."""
+    H = min(case['local'], case['peer'])
+    recv_t = [r['t'] for r in res['records'] if r['op'] == 'recv']
+    delta = max([b - a for a, b in zip(recv_t, recv_t[1:])] + [0])
+    slack0 = int(res['t0'] * 1000) + 1  # establishment is stamped after the rig has settled
+    wrote = res['wrote']
+    notifs = [(ms, k) for ms, k, st in wrote if k.startswith('NOTIFICATION')]
+    kas = [ms for ms, k, st in wrote if k == 'KEEPALIVE']
+    end = res['closed_ms'] if res['closed_ms'] is not None else res['until_ms']
+    real_arrivals = sorted(case['arrivals']) if case['kind'] in REAL else []
+    if H == 0:
+        for ms, k in notifs:
+            if k == 'NOTIFICATION 4 0':
+                return f'hold timer fired ({k} {ms:.0f} ms after establishment) although the negotiated hold time is 0 (our OPEN {case["local"]}, peer OPEN {case["peer"]})'
+        late = [ms for ms in kas if ms > 1000]
+        if late:
+            return f'{len(late)} periodic KEEPALIVE(s) with negotiated hold time 0, first {late[0]:.0f} ms after establishment'
+        return None
+    for ms, k in notifs:
+        la = max([a for a in real_arrivals if a <= ms] + [0])
+        if k != 'NOTIFICATION 4 0':
+            return f'session with hold time {H} ended with {k} at {ms:.0f} ms'
+        if not ms - la >= H * 1000:
+            return f'closed with 4/0 {ms - la:.0f} ms after the last message the remote sent, hold time {H} s'
+        if not ms - la < (H + 1) * 1000 + 2 * delta + (slack0 if la == 0 else 0):
+            return f'4/0 only {ms - la:.0f} ms after the last message, hold time {H} s, delta {delta} ms'
+    if not notifs:
+        la = max(real_arrivals + [0])
+        if res['closed_ms'] is not None:
+            return f'connection closed at {res["closed_ms"]:.0f} ms without NOTIFICATION'
+        if not res['until_ms'] - la < (H + 1) * 1000 + 2 * delta + (slack0 if la == 0 else 0):
+            return f'still open {res["until_ms"] - la:.0f} ms after the last message the remote sent, hold time {H} s'
+    if H >= 3:
+        marks = [0.0] + [k for k in kas if k <= end] + [end]
+        for a, b in zip(marks, marks[1:]):
+            if not 3 * (b - a) <= H * 1000 + 6 * delta + (3 if a == 0.0 else 0):
+                return f'no KEEPALIVE between {a:.0f} ms and {b:.0f} ms after establishment ({b - a:.0f} ms), hold time {H} s, delta {delta} ms'
+    return None
+
+
+def run_estab(case: dict) -> dict:
+    from harness import timerrig
+
+    return timerrig.run_establishment(case['local'], case['peer'], case['arrivals'], case['kind'], case['routes'], estab_until(case))
+
+
+def estab_cases(rng, tier: str) -> list[dict]:
+    cases = []
+    flip = 0
+    for local in HOLDS:
+        for peer in HOLDS:
+            h = min(local, peer)
+            flip += 1
+            cases.append({'local': local, 'peer': peer, 'arrivals': [], 'kind': 'keepalive', 'routes': 3 * (flip % 2)})
+            if h:
+                k = h * 1000 // 3
+                arr = [k * i + rng.choice([-900, 0, 500]) for i in range(1, 4)]
+                cases.append({'local': local, 'peer': peer, 'arrivals': [max(a, 1) for a in arr], 'kind': rng.choice(['keepalive', 'update']), 'routes': 3 * ((flip + 1) % 2)})
+            else:
+                cases.append({'local': local, 'peer': peer, 'arrivals': [5000], 'kind': 'update', 'routes': 3 * ((flip + 1) % 2)})
+    if tier != 'quick':
+        for _ in range(250):
+            local, peer = (rng.choice(HOLDS + [4, 5, 10, 30, rng.randrange(3, 200)]) for _ in range(2))
+            h = min(local, peer)
+            arr, t = [], 0
+            for _ in range(rng.randrange(0, 6)):
+                t += rng.choice([h * 1000 // 3, h * 1000 - 50, h * 1000 + 50, h * 500, 1000, rng.randrange(1, (h + 1) * 1000 + 1)]) if h else rng.randrange(1, 20000)
+                arr.append(max(t, 1))
+            cases.append({'local': local, 'peer': peer, 'arrivals': arr, 'kind': rng.choice(['keepalive', 'update', 'refresh']) if h else rng.choice(['update', 'refresh']), 'routes': rng.choice([0, 0, 3, 30])})
+    return cases
+
+
+def check_estab(ctx: Ctx, case: dict, origin: str, seen_fail: set) -> None:
+    from harness import timerrig
+
+    res = run_estab(case)
+    ctx.evaluations += 1
+    H = min(case['local'], case['peer'])
+    ctx.count('estab:' + origin)
+    ctx.count('estab:negotiated-' + h_class(H))
+    ctx.count('estab:timer-calls', len(res['records']))
+    lines, impl = timerrig.establishment_lines(case['local'], case['peer'], res['records'])
+    recv_t = [r['t'] for r in res['records'] if r['op'] == 'recv']
+    d = max([b - a for a, b in zip(recv_t, recv_t[1:])] + [0])
+    ctx.extra['estab_max_delta_ms'] = max(ctx.extra.get('estab_max_delta_ms', 0), d)
+    acted = [(ms, k) for ms, k, st in res['wrote'] if k == 'KEEPALIVE' or k.startswith('NOTIFICATION')]
+    if acted or H == 0:
+        ctx.nontrivial({'estab': case})
+    ctx.sample({'estab': case, 'timer_calls': len(lines), 'first_calls': lines[:5], 'remote_saw': acted[:6], 'closed_ms': res['closed_ms']}, cap=6)
+    if not any(l.split()[1] == 'estab-recv' for l in lines) or not any(l.split()[1] == 'estab-send' for l in lines):
+        ctx.disagreements.append(Disagreement('establishment', case, 'ReceiveTimer and SendTimer created', [l for l in lines[:4]]))
+    elif ctx.driver_ok:
+        model = common.run_driver('drv_timer', lines)
+        for j, (l, a, b) in enumerate(zip(lines, impl, model)):
+            if a != timerrig.model_view(l, b):
+                ctx.count('disagreement')
+                ctx.disagreements.append(Disagreement('establishment', {'case': case, 'call': j, 'line': l, 'before': lines[max(0, j - 3) : j]}, timerrig.model_view(l, b), a))
+                break
+    what = oracle_estab(case, res)
+    if what:
+        ctx.count('oracle-fail')
+        small = case
+        for cand in (dict(case, arrivals=[], routes=0), dict(case, arrivals=[]), dict(case, routes=0)):
+            if cand != small and oracle_estab(cand, run_estab(cand)):
+                small = cand
+                break
+        canon = {'local': small['local'], 'peer': small['peer'], 'routes': small['routes'], 'kind': small['kind'] if small['arrivals'] else '-', 'arrivals': small['arrivals']}
+        key = json.dumps(canon)
+        if key not in seen_fail:
+            seen_fail.add(key)
+            ctx.failures.append(Failure('session-script', canon, dict(small, establishment=True), oracle_estab(small, run_estab(small)) or what))
+
+
 def replay(path: str) -> int:
     from harness import timerrig
 
     data = json.loads(open(path).read())
     case = data.get('replay', data)
+    if 'local' in case:
+        case.setdefault('kind', 'keepalive')
+        res = run_estab(case)
+        print('our OPEN hold time', case['local'], '/ peer OPEN hold time', case['peer'], '→ H =', min(case['local'], case['peer']))
+        for r in res['records'][:3]:
+            print('  ', r)
+        print('remote sends', case['kind'], 'at', case['arrivals'], 'ms; ExaBGP configured routes:', case['routes'])
+        print('remote saw:', [(ms, k) for ms, k, st in res['wrote'] if k != 'UPDATE'][:12], 'closed_ms', res['closed_ms'])
+        what = oracle_estab(case, res)
+        print('holds :', what is None, '' if what is None else what)
+        return 0 if what is None else 1
+    from harness import sessionrig
+
+    sessionrig.install()
     rig = timerrig.TimerRig()
     try:
         if 'polls' not in case:
